@@ -155,7 +155,10 @@ def run(ctx):
     n = ctx.n(14, 60)
     for i in ctx.cases(n):
         rng = ctx.rng(i)
-        pb = session.make_problem(rng, N=int(rng.choice([1, 2, 9, 37, 150])))
+        pb = session.make_problem(rng, N=int(rng.choice([1, 2, 9, 37, 150])),
+                                  # single data sets also without a reference epoch (t_ref=False) and with a user-given one:
+                                  # what a worker process unpickles must be the same object the parent holds
+                                  t_ref_kind=str(rng.choice(["default", "none", "before", "inside"], p=[.4, .25, .2, .15])))
         if rng.random() < 0.25:
             # a single-precision library (prior.sample(dtype=np.float32)): both paths must still see the same doubles
             for kx in ("P", "e", "omega", "M0"):
@@ -346,6 +349,70 @@ def run(ctx):
                     if bits(np.asarray(lls_r)) != bits(base[idx]):
                         ctx.violation("values-not-in-input-order", "with a shuffled evaluation order the likelihoods do not come "
                                       "back in the order of the requested rows", dict(desc, idx_head=idx[:8]))
+            # tiny libraries in a random order, many seeds: every permutation of 2-5 rows occurs, including those that look
+            # like an ascending block by their end points
+            if N >= 3:
+                for Nt in (3, 4, 5):
+                    if N < Nt:
+                        continue
+                    small = pb.lib[:Nt]
+                    for sd_ in range(ctx.n(6, 16)):
+                        recgen.reset()
+                        jj = TheJoker(pb.prior, pool=get_pool(0), rng=recgen.make(1000 * Nt + sd_), tempfile_path=ctx.tmpdir)
+                        _, l_ = jj.rejection_sample(pb.data, small, randomize_prior_order=True, return_all_logprobs=True)
+                        ch = recgen.events("choice")
+                        if len(ch) != 1:
+                            continue
+                        idx = np.asarray(ch[0]["result"], dtype=int)
+                        ctx.evaluations += 1
+                        if bits(np.asarray(l_)) != bits(base[:Nt][idx]):
+                            ctx.violation("values-not-in-input-order", "a %d-row library evaluated in the order %s returns the "
+                                          "likelihoods of other rows" % (Nt, idx.tolist()), dict(desc, order=idx.tolist()))
+                            break
+                ctx.distinct.add(repr(("tiny-library-random-order",)))
+            # scripted evaluation orders (see recgen.SCRIPT): subsets whose end points are len-1 apart while the interior is
+            # shuffled or lies elsewhere, reversed blocks, a block with two neighbours exchanged
+            if N >= 6:
+                def scripted(kind_):
+                    def f(a, size):
+                        size = min(size, a)
+                        lo = int(rng.integers(0, a - size + 1))
+                        blk = np.arange(lo, lo + size)
+                        if kind_ == "ends-fixed-interior-shuffled" and size >= 4:
+                            mid = rng.permutation(blk[1:-1])
+                            if np.all(np.diff(mid) > 0):
+                                mid = mid[::-1]
+                            return np.concatenate([[blk[0]], mid, [blk[-1]]])
+                        if kind_ == "ends-fixed-interior-elsewhere" and size >= 3 and a - size >= size - 2:
+                            rest = np.setdiff1d(np.arange(a), blk)
+                            return np.concatenate([[blk[0]], rng.choice(rest, size=size - 2, replace=False), [blk[-1]]])
+                        if kind_ == "reversed":
+                            return blk[::-1]
+                        if size >= 2:
+                            blk = blk.copy(); j_ = int(rng.integers(0, size - 1)); blk[[j_, j_ + 1]] = blk[[j_ + 1, j_]]
+                        return blk
+                    return f
+                for kind_ in ("ends-fixed-interior-shuffled", "ends-fixed-interior-elsewhere", "reversed", "neighbours-swapped"):
+                    M2 = int(rng.integers(4, N + 1)) if kind_ != "ends-fixed-interior-elsewhere" else int(rng.integers(3, max(4, N // 2)))
+                    recgen.reset()
+                    recgen.SCRIPT["order"], recgen.SCRIPT["used"] = scripted(kind_), 0
+                    try:
+                        jj = TheJoker(pb.prior, pool=get_pool(0), rng=recgen.make(seed + 5), tempfile_path=ctx.tmpdir)
+                        _, l_ = jj.rejection_sample(pb.data, path if rng.random() < 0.5 else pb.lib, randomize_prior_order=True,
+                                                    n_prior_samples=M2, return_all_logprobs=True,
+                                                    n_batches=int(rng.choice([1, 2, 3])))
+                    finally:
+                        recgen.SCRIPT["order"] = None
+                    ch = recgen.events("choice")
+                    if len(ch) != 1 or not recgen.SCRIPT["used"]:
+                        ctx.count("scripted_orders_not_applied")
+                        continue
+                    idx = np.asarray(ch[0]["result"], dtype=int)
+                    ctx.evaluations += 1
+                    ctx.distinct.add(repr(("scripted-order", kind_)))
+                    if bits(np.asarray(l_)) != bits(base[idx]):
+                        ctx.violation("values-not-in-input-order", "rows evaluated in the order %s... (%s): the likelihood vector is "
+                                      "not that of these rows in this order" % (idx[:8].tolist(), kind_), dict(desc, order=idx.tolist()[:40]))
             # a shuffled subset (n_prior_samples + randomize) must be the same rows whether the library is an object or a file
             if N > 3:
                 sub = {}
